@@ -1,7 +1,7 @@
 ---------------------------- MODULE WeightingImpl ----------------------------
 (***************************************************************************)
 (* Layer C for property C02: the decision structure of the anchored code,  *)
-(* transcribed as written (pinned tree), in the same root-free power form   *)
+(* transcribed as written (current tree), in the same root-free power form   *)
 (* as layer A:                                                              *)
 (*   odl/space/npy_tensors.py  NumpyTensorSpaceConstWeighting.inner/norm/dist*)
 (*                             NumpyTensorSpaceArrayWeighting.inner/norm,    *)
@@ -26,12 +26,12 @@ ImplDiscrConst(spc) == IF spc.p = PInf THEN QOne ELSE CellVolume(spc)
 \* RectPartition.boundary_cell_fractions: (1.0, 1.0) on a one-node axis, else the two formulas
 ImplFracs(spc) == [a \in 1..Len(spc.axes) |-> <<FracL(spc.axes[a]), FracR(spc.axes[a])>>]
 \* DiscretizedSpace.is_uniformly_weighted:
-\*     np.allclose(bdry_fracs, 1.0) or exponent == inf or not tspace.is_weighted
-\* with tspace.is_weighted == not (const weighting and const == 1.0)
+\*     np.allclose(bdry_fracs, 1.0) or exponent == inf or not hasattr(tspace, 'weighting')
+\* (a NumpyTensorSpace always has a weighting, so the third disjunct is FALSE here; before commit
+\*  2dbd74a it read "not tspace.is_weighted", which dropped the fractions for cell volume 1.0)
 ImplUniformlyWeighted(spc) ==
   \/ \A a \in 1..Len(spc.axes) : ImplFracs(spc)[a] = <<QOne, QOne>>
   \/ spc.p = PInf
-  \/ ImplDiscrConst(spc) = QOne
 \* _scaling_func_list + apply_on_boundary(only_once=False): the slab i_a = 0 is scaled by the left
 \* factor, the slab i_a = n_a - 1 by the right factor, one axis after the other (corners get both;
 \* on a two-node... and on a ONE-node axis both slabs are the same entry, but there the factors are 1).
@@ -46,7 +46,15 @@ ImplDiscrWeights(spc) ==
 
 ImplLeafWeights(spc) == IF spc.kind = "discr" THEN ImplDiscrWeights(spc) ELSE TensorWeights(spc)
 
-\* effective weights of the pinned code, as a weight tree (computed once per case)
+\* a zero-size tensor space (shape 0): BLAS nrm2 refuses n = 0 (const weighting, exponent 2) and the maximum
+\* of an empty array has no identity (exponent inf); norm() / dist() raise although ||0|| = 0
+RECURSIVE HasZeroSize(_)
+HasZeroSize(spc) == IF IsLeaf(spc) THEN spc.n = 0 ELSE \E k \in 1..Len(spc.parts) : HasZeroSize(spc.parts[k])
+ZeroSizeRaises(spc) ==
+  IsLeaf(spc) /\ spc.n = 0 /\ ~IsCustom(spc)
+  /\ ((spc.w.k # "array" /\ spc.p \in {2, PInf}) \/ (spc.w.k = "array" /\ spc.p = PInf))
+
+\* effective weights of the current code, as a weight tree (computed once per case)
 RECURSIVE ImplWTree(_)
 ImplWTree(spc) ==
   IF IsLeaf(spc) THEN [w |-> (IF IsCustom(spc) THEN [i \in 1..spc.n |-> QI(i)] ELSE ImplLeafWeights(spc)), sub |-> <<>>]
@@ -72,7 +80,7 @@ ImplCombine(wt, spc, cn) ==
   ELSE LET t == [k \in 1..Len(cn) |-> QMul(wt.w[k], CompTerm(cn[k], Pow(spc.parts[k]), Pow(spc)))]
        IN  IF spc.p = PInf THEN QMaxSeq(t) ELSE QSumSeq(t)
 ImplNormPowW(wt, spc, x) ==
-  IF IsLeaf(spc) THEN LeafNormPowW(wt.w, spc, x)
+  IF IsLeaf(spc) THEN (IF ZeroSizeRaises(spc) THEN Raise ELSE LeafNormPowW(wt.w, spc, x))
   ELSE IF spc.p = 2
     THEN IF ImplInnerOk(spc) THEN ImplInnerW(wt, spc, x, x)[1] ELSE Raise
     ELSE ImplCombine(wt, spc, [k \in 1..Len(spc.parts) |-> ImplNormPowW(wt.sub[k], spc.parts[k], x[k])])
@@ -81,6 +89,7 @@ ImplNormPowW(wt, spc, x) ==
 \*   (also for p = 2: no inner product involved);  ArrayWeighting has no dist: norm(x1 - x2)
 ImplDistPowW(wt, spc, x, y) ==
   IF IsLeaf(spc) THEN (IF IsCustomDist(spc) THEN DistPowW(wt, spc, x, y)
+                       ELSE IF ZeroSizeRaises(spc) THEN Raise
                        ELSE LeafNormPowW(wt.w, spc, VSub(x, y)))
   ELSE IF spc.w.k = "array" THEN ImplNormPowW(wt, spc, TSub(spc, x, y))
   ELSE ImplCombine(wt, spc, [k \in 1..Len(spc.parts) |->
@@ -90,24 +99,16 @@ ImplInner(spc, x, y)   == ImplInnerW(ImplWTree(spc), spc, x, y)
 ImplNormPow(spc, x)    == ImplNormPowW(ImplWTree(spc), spc, x)
 ImplDistPow(spc, x, y) == ImplDistPowW(ImplWTree(spc), spc, x, y)
 
-(* --- cells where the pinned code is known (by this model) to leave layer A *)
-RECURSIVE HasUnitVolumeBdry(_), HasNoInnerUnderP2(_)
-\* a discretised leaf whose cell volume is exactly 1 although a boundary cell is cut:
-\* "not tspace.is_weighted" makes the code skip the boundary fractions
-UnitVolumeBdry(spc) ==
-  /\ spc.kind = "discr" /\ spc.p # PInf /\ CellVolume(spc) = QOne
-  /\ \E a \in 1..Len(spc.axes) : ImplFracs(spc)[a] # <<QOne, QOne>>
-HasUnitVolumeBdry(spc) ==
-  IF IsLeaf(spc) THEN UnitVolumeBdry(spc)
-  ELSE \E k \in 1..Len(spc.parts) : HasUnitVolumeBdry(spc.parts[k])
+(* --- cells where the current code is known (by this model) to leave layer A *)
+RECURSIVE HasNoInnerUnderP2(_)
 \* a product space with exponent 2 over a component without inner product: norm() goes through inner()
+\* (open finding KF-C02-2)
 NoInnerUnderP2(spc) == ~IsLeaf(spc) /\ spc.p = 2 /\ ~InnerDefined(spc)
 HasNoInnerUnderP2(spc) ==
   IF IsLeaf(spc) THEN FALSE
   ELSE NoInnerUnderP2(spc) \/ \E k \in 1..Len(spc.parts) : HasNoInnerUnderP2(spc.parts[k])
-KnownCell(spc) == HasUnitVolumeBdry(spc) \/ HasNoInnerUnderP2(spc)
+KnownCell(spc) == HasNoInnerUnderP2(spc) \/ HasZeroSize(spc)
 \* family features of a space (they name the cell in the signature of a finding)
-Features(spc) ==
-  (IF HasUnitVolumeBdry(spc) THEN {"unitvol-bdry"} ELSE {}) \cup
-  (IF HasNoInnerUnderP2(spc) THEN {"p2-no-inner"} ELSE {})
+Features(spc) == (IF HasNoInnerUnderP2(spc) THEN {"p2-no-inner"} ELSE {})
+                 \cup (IF HasZeroSize(spc) THEN {"zero-size"} ELSE {})
 =============================================================================
